@@ -409,6 +409,25 @@ def check_fit_eval(chk, fi) -> Optional[Set[str]]:
                 note("fits-returns-same", None if out is df and _snapshot(df) == before else f"{tag} is not returned unchanged (a {'copy' if isinstance(out, Frame) else type(out).__name__} comes back{'' if _snapshot(df) == before else ', the input is edited'})")
             except Raised as ex:
                 note("fits-returns-same", f"{tag}: fit_to_pdb raises {ex.name}")
+        # the chain alphabet: 62 chains are renamed to 62 distinct single characters, 63 chains are refused
+        for n_chains in (62, 63):
+            df = cif_table(repo, cif_rows([(f"c{k}", 1, None) for k in range(n_chains)]))
+            call = func_callable(repo, M, fi.node, env, max_steps=120000)
+            try:
+                out = call(df)
+                ids = list(out._cols.get("chainID", [])) if isinstance(out, Frame) and out is not df else None
+                if n_chains == 63:
+                    note("chain-alphabet", f"a table of 63 chains is not refused (it comes back with chain ids {ids[:3] if ids else ids}...)")
+                elif ids is None or len(set(ids)) != 62 or any(not isinstance(x, str) or len(x) != 1 for x in ids):
+                    note("chain-alphabet", f"a table of 62 chains does not get 62 distinct one-character ids ({len(set(ids or []))} distinct)")
+                else:
+                    note("chain-alphabet", None)
+            except Raised as ex:
+                note("chain-alphabet", None if (n_chains == 63 and ex.name == "ValueError") else f"a table of {n_chains} chains: fit_to_pdb raises {ex.name}" + (" instead of ValueError" if n_chains == 63 else " although 62 chains can be named"))
+            except Unknown:
+                raise
+            except Exception as ex:
+                note("chain-alphabet", None if (n_chains == 63 and isinstance(ex, ValueError)) else f"a table of {n_chains} chains: fit_to_pdb raises {type(ex).__name__}" + (" instead of ValueError: the alphabet runs out before the size check" if n_chains == 63 else ""))
     except Unknown as ex:
         chk.ok("fit-eval", fi.where, f"fit_to_pdb is not evaluable as a whole on representative tables ({str(ex)[:90]}): the pinned-form rules decide")
         return None
@@ -426,6 +445,7 @@ def check_fit_eval(chk, fi) -> Optional[Set[str]]:
         "fits-returns-same": "a table that already fits (PDB rows, mmCIF rows within the limits) is returned itself, unchanged",
         "column-guard": "a table without the optional insertion-code column is fitted as well",
         "dtype-typestate": "no conversion of a categorical column fails on the representative tables",
+        "chain-alphabet": "62 chains are renamed to 62 distinct one-character ids, 63 chains are refused with ValueError",
     }
     # a rule is decided here only when at least one table reached the place where it is looked at
     decided = {r for r in texts if okc.get(r, 0) > 0} - {"dtype-typestate"}
@@ -519,7 +539,7 @@ def check_feasibility_eval(chk, fi) -> bool:
         chk.ok("feasibility-eval", fi.where, f"the feasibility part raises {ex.name} on a small table: the pinned-form rule decides")
         return False
     names = {c["max_serial"]: "atoms + TER lines (one per chain)", c["max_chains"]: "chains", c["max_resseq"]: "residues of one chain, i.e. distinct (number, insertion code) pairs"}
-    with evidence(chk, "feasibility"):
+    with evidence(chk, "feasibility", "limits"):
         for limit, what in names.items():
             got = per_limit.get(limit, [])
             if not got:
@@ -547,4 +567,6 @@ def check_feasibility_eval(chk, fi) -> bool:
                 chk.violation("feasibility", fi.site(st), f"the refusal compares the number of {what} with {limit} by {sorted(ops)}, the limit itself must still be accepted (`>`)", K(fi, f"refusal-op:{limit}"))
             else:
                 chk.ok("feasibility", fi.site(st), f"evaluated on {len(got)} tables: refused when the number of {what} exceeds {limit}")
+        if all(per_limit.get(l) for l in names):
+            chk.ok("limits", fi.where, f"evaluated: the refusals compare with {c['max_serial']} (serials), {c['max_chains']} (chains) and {c['max_resseq']} (residues per chain), whatever names or constants hold them")
     return True
